@@ -261,6 +261,27 @@ def suite_strings(ctx, values, dialects, label, full_spellings, stats):
             stats["fail"][("sqlite", fid)] += 1
             ctx.oracle_failure(fid, f"value {v!r} does not reach SQLite unchanged: {str(res)[:200]}",
                                {"prql": f"from t | select {{v = {src}}}", "dialect": "sqlite", "value": v, "sql": a["sql"], "observed": res})
+    # the same values through the FORMATTED output (Options::default and the CLI format the SQL; the formatter works on the
+    # statement text and must leave the inside of literals alone), with and without the signature comment
+    first = {}
+    for (v, style, src, cls), a in zip(good, comp):
+        if "sql" in a and ran.get(a["sql"]) and v not in first:
+            first[v] = src
+    fvals = list(first)
+    for sig in (False, True):
+        fcomp = vh_batch([dict(compile_req(f"from t | select {{v = {first[v]}}}"), format=True, signature=sig) for v in fvals])
+        for v, a in zip(fvals, fcomp):
+            ctx.case(("sql-formatted", sig, first[v]), nontrivial="sql" in a)
+            ctx.count(f"{label}:formatted-output" + (":signature" if sig else ""))
+            if "sql" not in a:
+                ctx.oracle_failure(None, f"the program compiles without formatting but not with it: {first[v]!r}", {"prql": f"from t | select {{v = {first[v]}}}", "answer": a})
+                continue
+            res = sqlite_one(a["sql"], SETUP)
+            if not (res[0] != "error" and res[0] == ["v"] and res[1] == [[v]]):
+                # listed finding: the SQL formatter (sqlformat) reads a backslash in front of a quote as an escape
+                fid = "sql-formatter-backslash-before-quote" if re.search(r"\\+(?='|$)", v) or "\\'" in a["sql"] else None
+                ctx.oracle_failure(fid, f"value {v!r} reaches SQLite unchanged in the unformatted output but not in the formatted one: {str(res)[:200]}",
+                                   {"prql": f"from t | select {{v = {first[v]}}}", "dialect": "sqlite", "format": True, "signature": sig, "value": v, "sql": a["sql"], "observed": res})
     # the same spellings inside a relation literal: from [{v = <literal>}]
     rgood = [c for c in good if c[3] != "F"]
     rcomp = vh_batch([compile_req(f"from [{{v = {src}}}]") for (_, _, src, _) in rgood])
